@@ -435,3 +435,69 @@ func variadicFirst(cl ssa.CallInstruction) ssa.Value {
 	}
 	return as[len(as)-1]
 }
+
+// c18names: the resource list of a pool covers every resource that has a threshold of any kind.
+func c18names(c *Ctx, pkg string) {
+	r := c.R
+	r.Rule("TABLE(one resource list): processOneNodePool takes the pool's resource list (the one handed to getNodeThresholds) from the keys of result(s) of newThresholds; over those results, newThresholds completes the map for the names of ALL FOUR configured threshold maps (the keys of the stores into it derive from low, high, lowProd and highProd) - a resource with only a prod threshold still is a resource of the pool, else it silently does not count when a node is judged underused")
+	pool := c.Fn(pkg, "LowNodeLoad", "processOneNodePool")
+	nt := c.Fn(pkg, "", "newThresholds")
+	if pool == nil || nt == nil {
+		return
+	}
+	var mapParams []*ssa.Parameter
+	for _, p := range nt.Params {
+		if _, ok := p.Type().Underlying().(*types.Map); ok {
+			mapParams = append(mapParams, p)
+		}
+	}
+	// which results define the resource list
+	used := map[int]bool{}
+	for _, cl := range an.Calls(pool, false) {
+		if an.ShortCallee(cl.Common()) != "getNodeThresholds" {
+			continue
+		}
+		for _, a := range cl.Common().Args {
+			if _, ok := a.Type().Underlying().(*types.Slice); !ok {
+				continue
+			}
+			for x := range backwardAll(a) {
+				if ex, ok := x.(*ssa.Extract); ok {
+					if call, ok := ex.Tuple.(*ssa.Call); ok && call.Call.StaticCallee() == nt {
+						used[ex.Index] = true
+					}
+				}
+			}
+		}
+	}
+	covered := map[*ssa.Parameter]bool{}
+	nStores := 0
+	for i := range used {
+		if i >= len(mapParams) {
+			continue
+		}
+		covered[mapParams[i]] = true
+		for _, b := range nt.Blocks {
+			for _, in := range b.Instrs {
+				mu, ok := in.(*ssa.MapUpdate)
+				if !ok || !backwardAll(mu.Map)[mapParams[i]] {
+					continue
+				}
+				nStores++
+				back := backwardAll(mu.Key)
+				for _, p := range mapParams {
+					if back[p] {
+						covered[p] = true
+					}
+				}
+			}
+		}
+	}
+	var missing []string
+	for _, p := range mapParams {
+		if !covered[p] {
+			missing = append(missing, p.Name())
+		}
+	}
+	r.Check(len(mapParams) == 4 && len(used) > 0 && nStores > 0 && len(missing) == 0, "TABLE", fkey(nt)+"/one-resource-list", c.Pos(nt.Pos()), "the maps defining the pool's resource list are completed over the names of all four threshold maps", sprintf("the pool's resource list misses the resources configured only in %v: their thresholds are never computed and a node above them counts as underused", missing))
+}
